@@ -279,7 +279,10 @@ type checker struct {
 
 	memViolations   int64
 	makeslicePanics int64 // allocation-size panics of a decoder that was given a finite limit
-	notes           *tally
+
+	rlpUnsafe        int64 // the in-tree RLP decoder was seen not to bound declared sizes
+	rlpMemViolations int64
+	notes            *tally
 }
 
 // tally is a concurrent histogram.
@@ -449,6 +452,15 @@ func (c *checker) roundTrip(g *gridValue, codec string) {
 		}
 		var diffs []string
 		diffWire(g.V, dv, "", &diffs)
+		if len(diffs) > 0 && g.Long {
+			// one class per (codec, element kind): which leaves of which
+			// elements come back changed is a consequence, not the class
+			p := diffs[0]
+			c.classes.Add("roundtrip/" + codec + "/value-changed/long-slice/elem-" + g.ElemKind)
+			c.report(map[string]string{"phase": "roundtrip", "codec": codec, "kind": "value-changed", "leaf": "slice-elements", "shape": "long-slice/elem-" + g.ElemKind}, k,
+				fmt.Sprintf("%s round trip of %s (%s, %d leaves changed) changes %s: %s -> %s", codec, descString(g.Desc), g.Shape[g.Desc.Path], len(diffs), p, showLeaf(walkTo(g.V, p)), showLeaf(walkTo(dv, p))))
+			return
+		}
 		if len(diffs) > 0 {
 			seen := map[string]bool{}
 			allKind, allShape := g.full()
@@ -486,6 +498,9 @@ func (c *checker) roundTrip(g *gridValue, codec string) {
 	cls := "base"
 	if g.Desc.Path != "" {
 		cls = g.Kind[g.Desc.Path] + "/" + g.Shape[g.Desc.Path]
+	}
+	if g.Long {
+		cls += "/elem-" + g.ElemKind
 	}
 	c.classes.Add("roundtrip/" + codec + "/ok/" + cls)
 }
